@@ -294,7 +294,18 @@ def r_find(repo, rep):
         else:
           idx.append(None)
       if None in idx or base is None or not re.fullmatch(r"%s\.split\('-'\)" % re.escape(entry), base):
-        rep.undecided('R4/parse', 'TimeWindow(%s, %s)' % tuple(exp), 'arguments are not parts of entry.split("-")', f.loc(tw))
+        joined = ' '.join(exp)
+        for x_ in args:
+          for nm_ in [y_ for y_ in ast.walk(x_) if isinstance(y_, ast.Name)]:
+            for d_ in rd.defs_at(a, nm_.id):
+              if d_.value is not None:
+                joined += ' ' + norm(rd.expand(d_.node, d_.value, keep=(param, entry))[0])
+        if re.search(r"\.(r?partition)\('-'\)|\.r?split\('-', (1|maxsplit=1)\)", joined):
+          rep.violation('R4/parse', f.qualname, 'TimeWindow(%s, %s)' % tuple(e_[:60] for e_ in exp),
+                        'the entry is cut at the first/last "-" only (%s): an entry with more than one "-" is not rejected for its arity, the remainder is handed to the date parser'
+                        % joined[:100], f.loc(tw))
+        else:
+          rep.undecided('R4/parse', 'TimeWindow(%s, %s)' % tuple(exp), 'arguments are not parts of entry.split("-")', f.loc(tw))
         continue
 
       def arity_lit(k):
